@@ -72,6 +72,10 @@ fn main() {
     let code = match args[2].as_str() {
         "C01" => dispatch::<c01::C01>(cmd, &args),
         "C05" => dispatch::<c01::C05>(cmd, &args),
+        "C06" => dispatch::<structural::C06>(cmd, &args),
+        "C07" => dispatch::<structural::C07>(cmd, &args),
+        "C11" => dispatch::<fault::C11>(cmd, &args),
+        "C12" => dispatch::<fault::C12>(cmd, &args),
         other => {
             eprintln!("unknown property {}", other);
             2
